@@ -221,6 +221,175 @@ def dump_pvg(g) -> dict:
             'known_orf': list(g.known_orf) if g.known_orf else None}
 
 
+
+# ---------------------------------------------------------------- `G translate` (Model/Translate.lean)
+
+_ET = {'reference': 'r', 'variant_start': 's', 'variant_end': 'e'}
+
+
+def dump_translate_in(g):
+    """the graph as `ThreeFrameTVG.translate` finds it (after fit_into_codons), with everything
+    `Model/Translate.lean` reads: DNA sequence, typed out-edges IN THE ITERATION ORDER of the set,
+    frame, node-local variant locations, matched locations (`seq.locations`; `lvl0` = the location
+    points into the level-0 graph, as `fix_selenocysteines` tests it), level, `branch`, `orf[1]`;
+    graph-level: `reading_frames`, `has_known_orf`, `seq.orf`, `sect_variants`, `mrna_end_nf`,
+    `is_circ_rna()`.  Returns (dict, {id(TVGNode): index})."""
+    ids, order = {}, []
+
+    def nid(n):
+        if id(n) not in ids:
+            ids[id(n)] = len(ids)
+            order.append(n)
+        return ids[id(n)]
+    nid(g.root)
+    for x in g.reading_frames:
+        nid(x)
+    i = 0
+    while i < len(order):
+        n = order[i]
+        i += 1
+        for e in n.out_edges:
+            nid(e.out_node)
+    sub = g.subgraphs
+
+    def lvl0(loc):
+        name = loc.ref.seqname
+        return name in sub.data and sub[name].level == 0
+    nodes = []
+    for n in order:
+        nodes.append({
+            'seq': None if n.seq is None else str(n.seq.seq),
+            'out': [(ids[id(e.out_node)], _ET.get(e.type, 'r')) for e in n.out_edges],
+            'rf': n.reading_frame_index,
+            'vars': [(ids_of(v.variant), int(v.location.start), int(v.location.end)) for v in n.variants],
+            'locs': [] if n.seq is None else
+            [(int(l.query.start), int(l.query.end), l.query.reading_frame_index,
+              int(l.ref.start), int(l.ref.end), bool(lvl0(l))) for l in n.seq.locations],
+            'level': int(n.level), 'branch': bool(n.branch),
+            'orf_end': None if not n.orf or n.orf[1] is None else int(n.orf[1]),
+        })
+    d = {'nodes': nodes, 'frames': [ids[id(x)] for x in g.reading_frames],
+         'has_known_orf': bool(g.has_known_orf),
+         'orf': [int(g.seq.orf.start), int(g.seq.orf.end)] if g.seq is not None and g.seq.orf else None,
+         'sect': [(int(v.location.start), int(v.location.end)) for v in g.sect_variants],
+         'mrna_end_nf': bool(g.mrna_end_nf), 'circ': bool(g.is_circ_rna())}
+    return d, ids
+
+
+def enc_translate_in(d: dict, idmap: Dict[str, int]) -> List[str]:
+    """protocol fields of `G translate` (see `Driver/GT.lean`, `parseIn`)"""
+    def opt(x):
+        return '-' if x is None else str(x)
+    parts = []
+    for n in d['nodes']:
+        vs = ','.join('+'.join(str(idmap.setdefault(i, len(idmap))) for i in ids) + f'.{a}.{b}'
+                      for ids, a, b in n['vars'])
+        ls = ','.join(f'{a}.{b}.{opt(f)}.{c}.{e}.{1 if l else 0}' for a, b, f, c, e, l in n['locs'])
+        parts.append(':'.join([n['seq'] or '-', '1' if n['seq'] is None else '0',
+                               ','.join(f'{o}.{t}' for o, t in n['out']) or '-', opt(n['rf']),
+                               vs or '-', ls or '-', str(n['level']), '1' if n['branch'] else '0',
+                               opt(n['orf_end'])]))
+    return [';'.join(parts), ','.join(str(x) for x in d['frames']), '1' if d['has_known_orf'] else '0',
+            '-' if d['orf'] is None else f"{d['orf'][0]}.{d['orf'][1]}",
+            ','.join(f'{a}.{b}' for a, b in d['sect']) or '-',
+            '1' if d['mrna_end_nf'] else '0', '1' if d['circ'] else '0']
+
+
+def snap_translate_real(pg, names: Dict[int, str]) -> dict:
+    """snapshot of the peptide graph the REAL `translate` returned (taken at once:
+    create_cleavage_graph rewrites the graph in place).  Nodes are named by where they come from,
+    not by a traversal: `r` root, `s` the shared stop, `n<o>` = the PVGNode `TVGNode.translate`
+    returned for input node o (recorded by the node-level wrapper), `…R` = the node a `split_node`
+    of `…` returned, `…F` = the remaining unnamed successor of a named node that reads `*` and has
+    no successor (the fake stop)."""
+    names = dict(names)
+    names[id(pg.root)] = 'r'
+    names[id(pg.stop)] = 's'
+    order, seen = [pg.root], {id(pg.root)}
+    i = 0
+    while i < len(order):
+        n = order[i]
+        i += 1
+        for o in n.out_nodes:
+            if id(o) not in seen:
+                seen.add(id(o))
+                order.append(o)
+    for n in order:
+        if id(n) in names:
+            for o in n.out_nodes:
+                if id(o) not in names and str(o.seq.seq) == '*' and not o.out_nodes:
+                    names[id(o)] = names[id(n)] + 'F'
+    unknown = [0]
+
+    def nm(n):
+        if id(n) not in names:
+            names[id(n)] = f'?{unknown[0]}'
+            unknown[0] += 1
+        return names[id(n)]
+    ns, es = [], []
+    for n in order:
+        vs = [(ids_of(v.variant), int(v.location.start), int(v.location.end),
+               int(v.location.start_offset), int(v.location.end_offset)) for v in n.variants]
+        secs = [int(x.location.start) for x in n.selenocysteines]
+        ns.append((nm(n), 'None' if n.seq is None else str(n.seq.seq), n.reading_frame_index,
+                   bool(n.truncated), vs, secs, int(n.level)))
+        for o in n.out_nodes:
+            es.append(nm(n) + '>' + nm(o))
+    ko = pg.known_orf
+    return {'nodes': ns, 'edges': es, 'frames': ['-' if x is None else nm(x) for x in pg.reading_frames],
+            'ko': '-' if not ko or ko[0] is None else f'{ko[0]}-{ko[1]}'}
+
+
+def canon_translate_real(snap: dict, idmap: Dict[str, int]) -> str:
+    """the snapshot in the canonical form `G translate` prints the model's graph
+    (`Driver/GT.lean`, `canon`)"""
+    ns = []
+    for name, seq, rf, trunc, vs, secs, level in snap['nodes']:
+        v = ','.join('+'.join(str(idmap.setdefault(i, len(idmap))) for i in ids) + f'.{a}.{b}.{c}.{d}'
+                     for ids, a, b, c, d in vs)
+        ns.append(':'.join([name, seq, '-' if rf is None else str(rf), '1' if trunc else '0', v,
+                            ','.join(str(x) for x in secs), str(level)]))
+    return 'N=' + ';'.join(sorted(ns)) + '|E=' + ';'.join(sorted(snap['edges'])) + \
+        '|F=' + ','.join(snap['frames']) + '|O=' + snap['ko']
+
+
+def translate_flags(real: str) -> Dict[str, bool]:
+    """what a canonical `G translate` output exercises (for the coverage counters)"""
+    if real.startswith('crash:'):
+        return {'real_crashed': True}
+    ns = [x.split(':') for x in real.split('|E=')[0].split(';')]
+    secs = [[int(k) for k in x[5].split(',')] for x in ns if len(x) > 5 and x[5]]
+    return {
+        'linear_input': real.startswith('in=1;'),
+        'with_variant_node': any(len(x) > 4 and x[4] for x in ns),
+        'with_selenocysteine_fixed': bool(secs),
+        'with_two_sec_in_one_node': any(len(k) > 1 for k in secs),
+        # the hypothesis `secAscending` of Props.C01.translate_language_eq, read off the REAL nodes
+        'sec_positions_not_ascending': any(any(a >= b for a, b in zip(k, k[1:])) for k in secs),
+        'with_fake_stop': 'F:*:' in real,
+        'with_truncated_node': any(len(x) > 3 and x[3] == '1' for x in ns),
+        'with_star_for_empty_leaf': any(len(x) > 1 and x[0] not in ('s',) and not x[0].endswith('F')
+                                        and x[1] == '*' and f'{x[0]}>s' in real for x in ns),
+    }
+
+
+def linear_input(d: dict) -> bool:
+    """`Translate.linearInput` evaluated independently on the dump"""
+    return not d['circ'] and all(n['level'] == 0 and all(l[5] for l in n['locs']) for n in d['nodes'])
+
+
+def translate_case(rec: 'Rec', idmap: Dict[str, int]):
+    """(protocol line `G translate …`, canonical form of the real output) of one unit"""
+    t = getattr(rec, 'translate', None)
+    if t is None:
+        return None
+    idmap = dict(idmap)
+    line = '\t'.join(['G', 'translate'] + enc_translate_in(t['in'], idmap))
+    if 'crash' in t:
+        return line, 'crash:' + t['crash']
+    return line, f"in={1 if linear_input(t['in']) else 0};" + canon_translate_real(t['out'], idmap)
+
+
 @contextlib.contextmanager
 def capture(store: List[Rec]):
     """wrap the stage methods for the duration of one in-process run"""
@@ -239,6 +408,10 @@ def capture(store: List[Rec]):
     o_ccg = PeptideVariantGraph.create_cleavage_graph
     o_call = PeptideVariantGraph.call_variant_peptides
     o_circ = ThreeFrameCVG.create_variant_circ_graph
+    from moPepGen.svgraph.TVGNode import TVGNode
+    from moPepGen.svgraph.PVGNode import PVGNode
+    o_ntr = TVGNode.translate
+    o_split = PVGNode.split_node
 
     def rec_of(g) -> Rec:
         r = getattr(g, '_vrec', None)
@@ -281,11 +454,46 @@ def capture(store: List[Rec]):
             self._vrec.stages['tvg2'] = dump_tvg(self)
         return res
 
+    cur = {'names': None, 'ids': None, 'keep': None}
+
+    def node_tr(self):
+        pn = o_ntr(self)
+        if cur['names'] is not None and id(self) in cur['ids']:
+            cur['names'][id(pn)] = f"n{cur['ids'][id(self)]}"
+            cur['keep'].append(pn)
+        return pn
+
+    def node_split(self, *a, **k):
+        new = o_split(self, *a, **k)
+        if cur['names'] is not None:
+            cur['names'][id(new)] = cur['names'].get(id(self), '?') + 'R'
+            cur['keep'].append(new)
+        return new
+
     def tr(self):
-        pg = o_tr(self)
         r = getattr(self, '_vrec', None)
+        tin = None
+        if r is not None:
+            # `G translate`: the input exactly as the stage finds it, the PVGNode each input node
+            # is translated into (node-level wrappers, active during this call only)
+            try:
+                tin, tids = dump_translate_in(self)
+                cur.update(names={}, ids=tids, keep=[])
+            except Exception:       # noqa: BLE001 — an input the dumper cannot read: no comparison
+                tin = None
+        try:
+            pg = o_tr(self)
+        except Exception as e:      # noqa: BLE001
+            if tin is not None:
+                r.translate = {'in': tin, 'crash': type(e).__name__}
+            cur.update(names=None, ids=None, keep=None)
+            raise
+        names = cur['names']
+        cur.update(names=None, ids=None, keep=None)
         if r is not None:
             pg._vrec = r
+            if tin is not None:
+                r.translate = {'in': tin, 'out': snap_translate_real(pg, names)}
             r.stages['pvg1'] = dump_pvg(pg)
             r.meta = {'has_known_orf': bool(self.has_known_orf), 'cds_start_nf': bool(self.cds_start_nf),
                       'mrna_end_nf': bool(self.mrna_end_nf),
@@ -314,6 +522,8 @@ def capture(store: List[Rec]):
     patch(ThreeFrameCVG, 'create_variant_circ_graph', circg)
     patch(ThreeFrameTVG, 'fit_into_codons', fit)
     patch(ThreeFrameTVG, 'translate', tr)
+    patch(TVGNode, 'translate', node_tr)
+    patch(PVGNode, 'split_node', node_split)
     patch(PeptideVariantGraph, 'create_cleavage_graph', ccg)
     patch(PeptideVariantGraph, 'call_variant_peptides', call)
     try:
